@@ -233,7 +233,7 @@ func TestVerif_C09_UtilSequential(t *testing.T) {
 	r.Rule("policies: limit 1-5 x period {10ms,25ms,100ms,333ms,1s,random ms} x timeout class {0,1ns,<P,P-1ns,P,2P,3P,between,2P-1ns} (systematic prefix then seeded random); 50 arrivals per policy on a virtual clock with gaps {0, tiny, <P, exactly to the next boundary, boundary-1ns, boundary+1ns, P, kP, thousands of periods, exactly to the last promised release}; every AcquirePermission result is judged against a book of releases per aligned period kept by the harness; distinct = (timeout class, limit, outcome incl. periods waited, gap kind, reservations outstanding at arrival)")
 	r.Assume("periods are aligned to the limiter's creation instant; a release exactly on a boundary belongs to the period that starts there; timeout horizon read in whole periods (floor(timeout/period))")
 	const arrivals = 50
-	n := r.N(3000, 90000)
+	n := r.N(10000, 300000)
 	for i := 0; i < n; i++ {
 		if !r.Mine(i) {
 			continue
@@ -329,7 +329,7 @@ func TestVerif_C09_UtilConcurrent(t *testing.T) {
 	defer restore()
 	r.Rule("per policy (same generator as the sequential part) 8 steps: advance the virtual clock by a generated gap, then N (2..(horizon+1)*limit+3, max 24) goroutines call AcquirePermission at that frozen instant on limiter A while a twin limiter B created at the same instant with the same history is driven N times sequentially; the multiset of (permitted, wait) must be equal, and A's results are judged order-insensitively against the harness' book (conservation per period, wait bounds, #admitted = min(N, free permits within horizon), #immediate = min(N, spare permits of current period)); distinct = (timeout class, limit, N class, admitted/immediate/rejected mix)")
 	r.Assume("the clock only moves while no acquirer is running (quiescent points)")
-	n := r.N(1500, 30000)
+	n := r.N(5000, 100000)
 	var inflight, maxInflight atomic.Int64
 	for i := 0; i < n; i++ {
 		if !r.Mine(i) {
